@@ -165,3 +165,15 @@ def run(ctx):
         ctx.ob('C14.4', cc, 'stored-path-relative', not raw and common,
                'CheckpointFile.path %s' % ('is the resolved relative path and shares its origin (%s) with the path that was tested / read' % sorted(cc.lname(l) for l in stored)[:3] if not raw and common else
                                            'is not the resolved path that was tested / read'), line=st.get('ln'))
+
+    # ---------------------------------------------------------------- C14.5
+    ctx.rule('C14.5', 'snapshots are never aliased: nothing in rip_workspace (nor the checkpoint glue in ripd / rip_tools) creates a hard link or symlink — a restored file that shares an inode with the stored snapshot lets the next in-place edit of the workspace file rewrite the checkpoint, so a second rewind no longer restores the checkpointed bytes.')
+    LINKS = r'^std::fs::hard_link$|^std::os::unix::fs::symlink$|^std::fs::soft_link$|^tokio::fs::(hard_link|symlink)'
+    scope_fns = [g for g in P.fns.values() if g.crate in ('rip_workspace', 'rip_tools', 'ripd')]
+    links = [(g, s_) for g in scope_fns for s_ in g.calls(LINKS)]
+    copies = [(g, s_) for g in P.fns.values() if g.crate == 'rip_workspace' for s_ in g.calls(r'^std::fs::(read|write)$')]
+    ctx.floor('C14.5', 'fs read / write sites in rip_workspace (the byte-copy paths the rule protects)', len(copies), 6)
+    ctx.ob('C14.5', 'workspace', 'no-link-aliasing', not links,
+           '%d function(s) scanned; %s' % (len(scope_fns), 'no hard_link / symlink call: snapshots and workspace files never share an inode' if not links else
+                                           '%s calls %s: a workspace file can alias a stored snapshot' % (links[0][0].path, links[0][1].callee)),
+           line=links[0][1].line if links else 0)
